@@ -42,7 +42,10 @@ constexpr auto atan2_compute(T const y, T const x) noexcept -> T
                                                        : -T(GCEM_HALF_PI)
                                                        :
                                                        //
-            x < T(0) ? y < T(0) ? atan(y / x) - T(etl::numbers::pi) : atan(y / x) + T(etl::numbers::pi) :
+            // both infinite: the angle of (+-1, +-1)
+            (is_inf(x) && is_inf(y)) ? atan2_compute(y < T(0) ? T(-1) : T(1), x < T(0) ? T(-1) : T(1)) :
+                                     // second or third quadrant; y = -0 belongs to the third (C F.10.1.4: -pi)
+            x < T(0) ? (y < T(0) || neg_zero(y)) ? atan(y / x) - T(etl::numbers::pi) : atan(y / x) + T(etl::numbers::pi) :
                      //
                 atan(y / x)
     );
